@@ -76,6 +76,12 @@ func (p *clientStreamProcessorFMP4) run(ctx context.Context) error {
 		return err
 	}
 
+	for _, track := range p.init.Tracks {
+		if track.TimeScale == 0 {
+			return fmt.Errorf("invalid time scale")
+		}
+	}
+
 	if !p.isLeading && len(p.init.Tracks) != 1 {
 		return fmt.Errorf("rendition playlists with multiple tracks are not supported")
 	}
